@@ -6,7 +6,7 @@ import json, os, re, shutil, subprocess, sys, tempfile, time
 V = '/verif'
 sys.path.insert(0, V)
 from engine import registry
-EXTRA = {'C11': ['C02', 'C04', 'C12'], 'C02': ['C04', 'C01', 'C11'], 'C03': ['C01'], 'C04': ['C01'], 'C12': ['C03'], 'C08': [], 'C09': []}   # C02-C04 take the C01 forest as their precondition: a change that breaks it is C01's to catch
+EXTRA = {'C11': ['C02', 'C04', 'C12'], 'C02': ['C04', 'C01', 'C11'], 'C03': ['C01'], 'C04': ['C01'], 'C12': ['C03', 'C05'], 'C08': [], 'C09': []}   # C02-C04 take the C01 forest as their precondition: a change that breaks it is C01's to catch
 names = sys.argv[1:] or sorted(d for d in os.listdir(V + '/seeded') if os.path.isdir(V + '/seeded/' + d))
 assert subprocess.run('git -C /repo diff --quiet', shell=True).returncode == 0, '/repo is dirty'
 save = tempfile.mkdtemp()
